@@ -12,7 +12,7 @@ use serde_json::{json, Value};
 use std::io::Write;
 use vph::refdec;
 
-pub const RULE: &str = "for each writer front-end × declared/undeclared total × seek policy {off, every frame, seconds} × padding {default 4096, none, 20} × channels/depth {1×16, 2×8, 2×24} × sink {whole-buffer writes, at most 1 byte per write call, at most 7} (+ STREAMINFO-referenced parameters: 10-bit, 17-bit at rate 0, 100001 Hz): 3.5 blocks of 16 PCM frames are written without finalize, plus declared totals of 2^32, 2^32+100, 2^32+23, 2^33, 2^34+1000 and 2^36−1 PCM frames (56 supplied), plus histories where the caller supplies more or fewer PCM frames than it declared ((supplied, declared) ∈ {(56,40),(48,40),(56,33),(40,17),(33,32),(56,100)}) and stops at the first error; for EVERY byte prefix of the emitted stream (a superset of every write-call boundary) each of 9 reader front-ends (byte LE/BE read + fill_buf, sample fill_buf / read(7) / read(4099) / iterator, channel whole and half-buffer consumption) must deliver exactly the PCM of the frames that lie completely inside the prefix (frame extents from the independent decoder run on a copy whose provisional total is cleared, i.e. without trusting STREAMINFO), in order, and then report end of data or an error; a prefix ending inside the metadata yields no samples";
+pub const RULE: &str = "for each writer front-end × declared/undeclared total × seek policy {off, every frame, seconds} × padding {default 4096, none, 20} × channels/depth {1×16, 2×8, 2×24} × sink {whole-buffer writes, at most 1 byte per write call, at most 7} (+ STREAMINFO-referenced parameters: 10-bit, 17-bit at rate 0, 100001 Hz): 3.5 blocks of 16 PCM frames are written without finalize, plus declared totals of 2^32, 2^32+100, 2^32+23, 2^33, 2^34+1000 and 2^36−1 PCM frames (56 supplied), plus histories where the caller supplies more or fewer PCM frames than it declared ((supplied, declared) ∈ {(56,40),(48,40),(56,33),(40,17),(33,32),(56,100)}) and stops at the first error; for EVERY byte prefix of the emitted stream (a superset of every write-call boundary) each of 9 reader front-ends (byte LE/BE read + fill_buf, sample fill_buf / read(7) / read(4099) / iterator, channel whole and half-buffer consumption) must deliver exactly the PCM of the frames that lie completely inside the prefix (frame extents from the independent decoder run on a copy whose provisional total is cleared, i.e. without trusting STREAMINFO), in order, and then report end of data or an error; the seekable sample and byte readers are additionally rewound with seek(0) after their first pass and must deliver the same frames again; a prefix ending inside the metadata yields no samples";
 pub const ASSUMPTIONS: &[&str] = &["the pre-finalize write log is verified to be append-only at run time (otherwise prefixes would not be the crash images and the check reports a machinery note)", "torn writes inside one write call are covered because every byte prefix is explored; reordering of writes by the OS is out of scope (no syncs exist to order against)"];
 pub fn bounds(_quick: bool) -> Value {
     json!({"prefixes": "every byte prefix", "blocks": "3 complete frames emitted + half a block buffered", "formats": if _quick { "3 (1×16, 2×8, 2×24)" } else { "18 (channels 1..8, depths 8..32)" }, "sinks": if _quick { "whole buffers, 1, 7 bytes per call" } else { "whole buffers, 1, 2, 3, 5, 7, 13, 64 bytes per call" }})
@@ -108,6 +108,72 @@ fn image(w: WriterKind, opt: &Opt, sig: &Sig, supplied: usize, declared_frames: 
     Ok(Image { bytes: dev.data, first_frame: st.first_frame_offset, frame_ends, pcm })
 }
 
+/// a seekable reader decodes the prefix to its end (or error), is rewound with seek(0) and decodes again: the second pass
+/// must deliver the complete frames once more (a provisional header has a placeholder-only seek table)
+fn check_prefix_rewound(img: &Image, len: usize, byte_reader: bool) -> Result<&'static str, (String, String)> {
+    use flac_codec::decode::{FlacByteReader, FlacSampleReader};
+    use flac_codec::metadata::Metadata;
+    use std::io::{Read, Seek, SeekFrom};
+    let want_samples = img.frame_ends.iter().filter(|(e, _)| *e <= len).map(|(_, c)| *c).last().unwrap_or(0);
+    let want = &img.pcm[..want_samples];
+    let bytes = &img.bytes[..len];
+    let r = guarded(|| -> Option<(Vec<i32>, bool)> {
+        let src = std::io::Cursor::new(bytes);
+        if byte_reader {
+            let _ = src;
+            let mut rd: FlacByteReader<_, LittleEndian> = FlacByteReader::new_seekable(std::io::Cursor::new(bytes)).ok()?;
+            let bps = rd.bits_per_sample();
+            let mut sink = Vec::new();
+            let _ = rd.read_to_end(&mut sink);
+            if rd.seek(SeekFrom::Start(0)).is_err() {
+                return Some((vec![], false));
+            }
+            let mut raw = Vec::new();
+            let mut buf = [0u8; 64];
+            loop {
+                match rd.read(&mut buf) {
+                    Ok(0) | Err(_) => break,
+                    Ok(n) => raw.extend_from_slice(&buf[..n]),
+                }
+            }
+            Some((crate::codec::bytes_pcm(&raw, bps, false), true))
+        } else {
+            let mut rd = FlacSampleReader::new_seekable(src).ok()?;
+            let mut first = Vec::new();
+            let _ = rd.read_to_end(&mut first);
+            if rd.seek(0).is_err() {
+                return Some((vec![], false));
+            }
+            let mut got = Vec::new();
+            loop {
+                match rd.fill_buf() {
+                    Ok([]) | Err(_) => break,
+                    Ok(b) => {
+                        let n = b.len();
+                        got.extend_from_slice(b);
+                        rd.consume(n);
+                    }
+                }
+            }
+            Some((got, true))
+        }
+    });
+    match r {
+        Err(p) => Err((format!("panic@{}", crate::core::panic_loc(&p)), format!("prefix {len}: {p}"))),
+        Ok(None) => Ok("unopenable"),
+        Ok(Some((_, false))) => if want.is_empty() { Ok("rewind-refused") } else { Err(("rewind-refused".into(), format!("prefix {len} holds {} samples in complete frames but seek(0) after the first pass fails", want.len()))) },
+        Ok(Some((got, true))) => {
+            if got.len() < want.len() && got[..] == want[..got.len()] {
+                return Err(("complete-frame-lost-after-rewind".into(), format!("prefix {len} holds {} samples in complete frames, the pass after seek(0) delivered only {}", want.len(), got.len())));
+            }
+            if got != want {
+                return Err(("unwritten-samples-delivered-after-rewind".into(), format!("prefix {len}: the pass after seek(0) delivered {} samples, the complete frames hold {}", got.len(), want.len())));
+            }
+            Ok("rewound-same")
+        }
+    }
+}
+
 fn check_prefix(img: &Image, len: usize, r: ReaderKind) -> Result<&'static str, (String, String)> {
     let want_samples = img.frame_ends.iter().filter(|(e, _)| *e <= len).map(|(_, c)| *c).last().unwrap_or(0);
     let want = &img.pcm[..want_samples];
@@ -198,6 +264,18 @@ pub fn run(ctx: &Ctx, acc: &mut Acc) {
                 continue;
             }
             acc.states += 1;
+            for byte_reader in [false, true] {
+                acc.executions += 1;
+                acc.transitions += 2;
+                let who = if byte_reader { "ByteRewound" } else { "SampleRewound" };
+                match check_prefix_rewound(&img, len, byte_reader) {
+                    Ok(how) => acc.outcome(format!("{who}:{how}")),
+                    Err((clause, detail)) => {
+                        acc.outcome(format!("{who}:BAD"));
+                        acc.violation(format!("C14|{who}|{clause}"), format!("{w:?} {:?} {}ch/{}bit: {detail}", opt, sig.ch, sig.bps), json!({"kind":"crash-prefix","writer":format!("{w:?}"),"opt":opt.to_json(),"rate":sig.rate,"bps":sig.bps,"ch":sig.ch,"prefix":len,"reader":who,"supplied":supplied,"declared_frames":declared_frames,"max_write":max_write}));
+                    }
+                }
+            }
             for r in READERS14 {
                 acc.executions += 1;
                 acc.transitions += 1;
@@ -222,6 +300,10 @@ pub fn replay(v: &Value) -> Option<(bool, String)> {
         Ok(i) => i,
         Err(e) => return Some((true, e)),
     };
+    if let Some(who) = v["reader"].as_str().filter(|w| w.ends_with("Rewound")) {
+        let r = check_prefix_rewound(&img, v["prefix"].as_u64()? as usize, who == "ByteRewound");
+        return Some((r.is_err(), format!("{r:?}")));
+    }
     let r = check_prefix(&img, v["prefix"].as_u64()? as usize, crate::codec::reader_from(v["reader"].as_str()?));
     Some((r.is_err(), format!("{r:?}")))
 }
